@@ -246,8 +246,47 @@ func c12Adversary(d *vCtx) error {
 		type job struct {
 			base int
 			mut  e2eMut
+			mut2 *e2eMut
 		}
 		var jobs []job
+		// two fields that only do harm together: a configuration announcing a huge buffer size (which bounds
+		// what block lengths the receiver accepts) followed by a block header announcing a huge length
+		for bi := range bases {
+			var cfg *e2eLayoutMsg
+			for mi := range layouts[bi] {
+				if layouts[bi][mi].Typ == "CFG" {
+					cfg = &layouts[bi][mi]
+				}
+			}
+			if cfg == nil {
+				continue
+			}
+			dec, err := decodeString(cfg.Raw)
+			var j map[string]any
+			if err != nil || json.Unmarshal(dec, &j) != nil {
+				continue
+			}
+			nd := 0
+			for _, m := range layouts[bi] {
+				if m.Typ != "DATA" || nd >= 2 {
+					continue
+				}
+				nd++
+				for _, bs := range []float64{1 << 61, 1 << 40, 1 << 32, 3 << 30} {
+					j2 := map[string]any{}
+					for kk, vv := range j {
+						j2[kk] = vv
+					}
+					j2["bufsize"] = bs
+					j2["binary"] = true
+					for _, ln := range []string{"4611686018427387904", "1099511627776", "4294967296", "2147483649"} {
+						jobs = append(jobs, job{bi, e2eMut{G: cfg.G, New: c12JSON(j2), Label: fmt.Sprintf("CFG:bufsize=%g+binary", bs)},
+							&e2eMut{G: m.G, New: ln, Label: "DATA:len=" + ln}})
+					}
+				}
+			}
+		}
+		d.set("double_mutations", len(jobs))
 		for bi := range bases {
 			for mi, m := range layouts[bi] {
 				if m.Typ == "DATA" && mi%3 != 0 && !thorough && !c12HasArchiveHeader(m.Raw) {
@@ -257,7 +296,7 @@ func c12Adversary(d *vCtx) error {
 					if m.G == 0 && !thorough && ui%4 != bi%4 {
 						continue // a broken ACT costs the client's 20 s default time-out each time: sample those
 					}
-					jobs = append(jobs, job{bi, mu})
+					jobs = append(jobs, job{bi, mu, nil})
 				}
 			}
 		}
@@ -276,6 +315,7 @@ func c12Adversary(d *vCtx) error {
 			cc.ID = ji
 			mu := j.mut
 			cc.Plan.Mutate = &mu
+			cc.Plan.Mutate2 = j.mut2
 			cc.Plan.CheckLeft = false
 			vMarkCurrent(d, ji, &cc)
 			_, detail, err := e2eExec(&cc, e2eWorkDir(base, cc.ID), tr, false)
